@@ -80,6 +80,17 @@ fn solo(v: &Value) -> Result<CaseReport, String> {
     run_solo(v, report)
 }
 
+fn fault_retry(_ctx: &Ctx, ev: &mut Value) -> Option<Violation> {
+    match crate::props::scenarios::metadata_retry_after_fault() {
+        Ok((plans, fired)) => {
+            ev["coverage"]["setter_fault_plans"] = serde_json::json!(plans);
+            ev["coverage"]["setter_fault_plans_with_fault_and_retry"] = serde_json::json!(fired);
+            None
+        }
+        Err(v) => Some(v),
+    }
+}
+
 pub fn def() -> PropDef {
     PropDef {
         id: "C17",
@@ -91,7 +102,7 @@ pub fn def() -> PropDef {
         worker,
         solo,
         hang_cpu_s: 30.0,
-        extra: None,
+        extra: Some(fault_retry),
         confirm_known: false,
     }
 }
